@@ -317,30 +317,32 @@ theorem remove_promote {img : Img} (hw : WF img) {i : Nat} (hi : i < img.n) (hc1
         · simp only [hL, if_false] at hpre ⊢
           exact hcoll h hh hpre
 
-/-- **`qhasharr_remove_by_idx` preserves well-formedness** (every outcome; no fault for an index
-    inside the table); a key slot is always removed, and then `num` drops by one -/
-theorem removeByIdx_wf {img : Img} (hw : WF img) (idx : Int) (hidx : idx < img.n) :
+/-- **`qhasharr_remove_by_idx` preserves well-formedness** for EVERY index (negative or beyond the
+    last slot: EINVAL, nothing touched); it never faults; a key slot is always removed, and then `num`
+    drops by one -/
+theorem removeByIdx_wf {img : Img} (hw : WF img) (idx : Int) :
     ∃ img' r, removeByIdx img idx = .ok (img', r) ∧ WF img' ∧ img'.n = img.n ∧
-      (0 ≤ idx → (img.sl idx.toNat).isKey = true → r = .ok ∧ img'.num = img.num - 1) := by
+      (0 ≤ idx → idx < img.n → (img.sl idx.toNat).isKey = true → r = .ok ∧ img'.num = img.num - 1) := by
   unfold removeByIdx
-  by_cases hneg : idx < 0
-  · exact ⟨img, .err .EINVAL, by simp [hneg, pure, Except.pure], hw, rfl, fun h => by omega⟩
-  · simp only [hneg, if_false]
+  have hm := hw.loc.1
+  by_cases hout : idx < 0 ∨ idx ≥ img.maxslots
+  · exact ⟨img, .err .EINVAL, by rw [if_pos hout]; rfl, hw, rfl, fun h1 h2 => by omega⟩
+  · simp only [hout, if_false]
     have hi : idx.toNat < img.n := by omega
     simp only [Img.rd_eq _ _ hi, bind, Except.bind]
     by_cases h1 : (img.sl idx.toNat).count = 1
     · obtain ⟨R, hR, hwR, hnR, hnn⟩ := remove_single hw hi h1
-      exact ⟨R, .ok, by simp [h1, hR, pure, Except.pure], hwR, hnn, fun _ _ => ⟨rfl, hnR⟩⟩
+      exact ⟨R, .ok, by simp [h1, hR, pure, Except.pure], hwR, hnn, fun _ _ _ => ⟨rfl, hnR⟩⟩
     · by_cases h2 : (img.sl idx.toNat).count > 1
       · obtain ⟨j, R, hf, hp, hwR, hnR, hnn⟩ := remove_promote hw hi h2
-        exact ⟨R, .ok, by simp [h1, h2, hf, hp, pure, Except.pure], hwR, hnn, fun _ _ => ⟨rfl, hnR⟩⟩
+        exact ⟨R, .ok, by simp [h1, h2, hf, hp, pure, Except.pure], hwR, hnn, fun _ _ _ => ⟨rfl, hnR⟩⟩
       · by_cases h3 : (img.sl idx.toNat).count = -1
         · obtain ⟨hld, hc, R, hR, hwR, hnR, hnn⟩ := remove_collision hw hi h3
-          refine ⟨R, .ok, ?_, hwR, hnn, fun _ _ => ⟨rfl, hnR⟩⟩
+          refine ⟨R, .ok, ?_, hwR, hnn, fun _ _ _ => ⟨rfl, hnR⟩⟩
           have hnle : ¬ (img.sl (img.sl idx.toNat).hash).count ≤ 1 := by omega
           simp [h1, h3, COLLISION_MARK, Img.rd_eq _ _ hld, hnle, Img.modify_eq _ _ _ hld, hR, pure, Except.pure]
         · refine ⟨img, .err .ENOENT, by simp [h1, h2, h3, COLLISION_MARK, pure, Except.pure], hw, rfl, ?_⟩
-          intro _ hk
+          intro _ _ hk
           simp [Slot.isKey] at hk
           omega
 
